@@ -10,6 +10,7 @@ import (
 	"testing"
 	"time"
 
+	"github.com/pion/stun/v3"
 	"pgregory.net/rapid"
 )
 
@@ -625,6 +626,215 @@ func TestVerif_C01_Converge(t *testing.T) {
 				wn = append(wn, p[0].name()+"<->"+p[1].name())
 			}
 			st.Fail(rt, sig, "%s\nworking pairs: %v\ncase: %s\nops: %s\nfinal: %s", msg, wn, c, strings.Join(d.ops, "; "), d.snapshotSel())
+		}
+	})
+}
+
+// TestVerif_C01_LatencyLoss drives the two agents over a network with per-direction latency (measured in
+// check intervals), per-message jitter and a lossy phase that may outlast the whole retry budget.  One
+// request per side on one working pair (the k-th, k within the budget) and the answers to those requests
+// are exempt from loss — that is the "finite loss within the retry budget" of the property: everything else
+// may be lost or late.  Oracle: reachability reference as in TestVerif_C01_Converge.
+func TestVerif_C01_LatencyLoss(t *testing.T) {
+	st := vfNewStats(t)
+	gen := duoCaseGen(1, true)
+	rapid.Check(t, func(rt *rapid.T) {
+		c := gen.Draw(rt, "case")
+		lat := [2]int{rapid.IntRange(0, 3).Draw(rt, "latencyFromA"), rapid.IntRange(0, 3).Draw(rt, "latencyFromB")}
+		jitter := rapid.SliceOfN(rapid.SampledFrom([]int{0, 0, 0, 1, 2}), 32, 32).Draw(rt, "jitter")
+		lossPct := rapid.SampledFrom([]int{0, 20, 50, 80, 100}).Draw(rt, "lossPercent")
+		lossDice := rapid.SliceOfN(rapid.IntRange(0, 99), 64, 64).Draw(rt, "lossDice")
+		lossClass := rapid.SampledFrom([]string{"all", "all", "requests", "responses", "use-candidate", "plain-requests"}).Draw(rt, "lossClass")
+		maxSteps := 2 * (int(c.MaxBinding) + 3)
+		nSteps := maxSteps
+		if !rapid.Bool().Draw(rt, "lossOutlastsBudget") {
+			nSteps = rapid.IntRange(0, maxSteps).Draw(rt, "lossySteps")
+		}
+		protK := [2]int{rapid.IntRange(0, int(c.MaxBinding)).Draw(rt, "protectedRequestA"), rapid.IntRange(0, int(c.MaxBinding)).Draw(rt, "protectedRequestB")}
+		protPick := rapid.IntRange(0, 15).Draw(rt, "protectedPair")
+
+		d, err := newDuoSim(c, nil)
+		if err != nil {
+			rt.Fatalf("harness: %v", err)
+		}
+		defer d.close()
+		if err := d.addLocals(); err != nil {
+			rt.Fatalf("harness: addLocals: %v", err)
+		}
+		if err := d.startBoth(); err != nil {
+			rt.Fatalf("harness: start: %v", err)
+		}
+		d.signalAll()
+		works := d.reach()
+		// the protected pair must be one on which a full agent can originate checks from what was signalled
+		// alone (discovery through other pairs would depend on unprotected traffic)
+		var direct [][2]*simSock
+		for _, p := range works {
+			sig := func(s *simSock) bool { return !c.NoSignal[s.name()] && s.kind != simKindNATHost }
+			if (!d.ag[0].lite && sig(p[1])) || (!d.ag[1].lite && sig(p[0])) {
+				direct = append(direct, p)
+			}
+		}
+		var prot [2]*simSock
+		if len(direct) > 0 {
+			prot = direct[protPick%len(direct)]
+		}
+		checkNever := func(where string) {
+			if len(works) > 0 {
+				return
+			}
+			for side := 0; side < 2; side++ {
+				if p := d.ag[side].selectedPair(); p != nil {
+					st.Fail(rt, "C01/unreachable/selected", "%s: agent %c selected %s although no pair is reachable in both directions\ncase: %s\nops: %s",
+						where, 'A'+side, p, c, strings.Join(d.ops, "; "))
+				}
+			}
+		}
+		type queued struct {
+			dg  *simDgram
+			due int
+		}
+		var queue []queued
+		step, nMsg := 0, 0
+		reqCount := [2]int{}
+		protTx := map[[stun.TransactionIDSize]byte]bool{}
+		lostSTUN, lateAnswers, protectedSeen := 0, 0, 0
+		lossy := true
+		// collect moves what the agents have just emitted into the latency queue, deciding loss at send time
+		collect := func() {
+			for d.w.inflightLen() > 0 {
+				dg := d.w.take(0)
+				nMsg++
+				protected := false
+				if dg.msg != nil && prot[0] != nil {
+					to := d.w.route(dg.src, dg.dst)
+					side := dg.src.side
+					if dg.msg.class == stun.ClassRequest && dg.src == prot[side] && to == prot[1-side] {
+						if reqCount[side] == protK[side] {
+							protected = true
+							protTx[dg.msg.txid] = true
+							protectedSeen++
+						}
+						reqCount[side]++
+					}
+					if dg.msg.class != stun.ClassRequest && protTx[dg.msg.txid] {
+						protected = true
+					}
+				}
+				subject := dg.msg != nil
+				if subject {
+					switch lossClass {
+					case "requests":
+						subject = dg.msg.class == stun.ClassRequest
+					case "responses":
+						subject = dg.msg.class != stun.ClassRequest
+					case "use-candidate":
+						subject = dg.msg.class == stun.ClassRequest && dg.msg.useCand
+					case "plain-requests":
+						subject = dg.msg.class == stun.ClassRequest && !dg.msg.useCand
+					}
+				}
+				if lossy && subject && !protected && lossDice[nMsg%len(lossDice)] < lossPct {
+					lostSTUN++
+					d.w.logEvent(simEvent{kind: "drop", side: dg.src.side, d: dg})
+					d.ops = append(d.ops, fmt.Sprintf("s%d lose(%s)", step, dg))
+
+					continue
+				}
+				delay := lat[dg.src.side] + jitter[nMsg%len(jitter)]
+				if dg.msg != nil && dg.msg.class != stun.ClassRequest && delay >= 2 {
+					lateAnswers++
+				}
+				queue = append(queue, queued{dg, step + delay})
+			}
+		}
+		deliverDue := func(all bool) {
+			for {
+				best := -1
+				for i, q := range queue {
+					if (all || q.due <= step) && (best < 0 || q.due < queue[best].due || (q.due == queue[best].due && q.dg.id < queue[best].dg.id)) {
+						best = i
+					}
+				}
+				if best < 0 {
+					return
+				}
+				q := queue[best]
+				queue = append(queue[:best], queue[best+1:]...)
+				res := d.w.deliver(q.dg)
+				d.ops = append(d.ops, fmt.Sprintf("s%d deliver(%s)=%s", step, q.dg, res))
+				collect()
+				checkNever(fmt.Sprintf("step %d", step))
+			}
+		}
+		for step = 0; step < nSteps; step++ {
+			side := (step + c.StartOrder) % 2
+			d.ag[side].tick()
+			d.ops = append(d.ops, fmt.Sprintf("s%d tick%c", step, 'A'+side))
+			collect()
+			deliverDue(false)
+		}
+		// the lossy phase is over: latency stays until the queue has drained, then the loss-free suffix runs
+		lossy = false
+		for extra := 0; len(queue) > 0 && extra < 16; extra++ {
+			side := (step + c.StartOrder) % 2
+			d.ag[side].tick()
+			d.ops = append(d.ops, fmt.Sprintf("s%d tick%c", step, 'A'+side))
+			collect()
+			deliverDue(false)
+			step++
+		}
+		deliverDue(true)
+		rounds := d.fairSuffix(40, checkNever)
+		if d.w.elapsed() > 2*time.Second {
+			st.Inconclusive()
+
+			return
+		}
+		labels := []string{fmt.Sprintf("loss:%d%%/%s", lossPct, lossClass)}
+		if len(works) > 0 {
+			labels = append(labels, "reachable")
+		} else {
+			labels = append(labels, "unreachable")
+		}
+		if lostSTUN > 0 {
+			labels = append(labels, "stun-lost")
+		}
+		if lateAnswers > 0 {
+			labels = append(labels, "answer-later-than-next-check")
+		}
+		if nSteps == maxSteps {
+			labels = append(labels, "loss-outlasts-budget")
+		}
+		if len(works) > 0 && prot[0] == nil {
+			labels = append(labels, "no-directly-signalled-working-pair")
+		}
+		if protectedSeen > 0 {
+			labels = append(labels, "protected-request-sent")
+		}
+		nontrivial := len(works) > 0 && (prot[0] != nil || lostSTUN == 0) && (lostSTUN > 0 || lateAnswers > 0)
+		st.Record(vfHashStr(c.String()+strings.Join(d.ops, ";")), nontrivial, labels...)
+		if nontrivial && st.WantSample() {
+			st.Sample(func() string {
+				return fmt.Sprintf("%s | latency A→B %d B→A %d steps, loss %d%% of %s for %d steps, protected request #%d/#%d on %s<->%s | lost=%d late answers=%d rounds=%d final=%s",
+					c, lat[0], lat[1], lossPct, lossClass, nSteps, protK[0], protK[1], sockName(prot[0]), sockName(prot[1]), lostSTUN, lateAnswers, rounds, d.snapshotSel())
+			})
+		}
+		if len(works) == 0 {
+			checkNever("end")
+
+			return
+		}
+		if prot[0] == nil && lostSTUN > 0 {
+			return // no pair whose checks could be exempted from loss: no convergence claim (counted by label)
+		}
+		if sig, msg := d.mirrorCheck(); sig != "" {
+			o := d.ops
+			if len(o) > 400 {
+				o = o[len(o)-400:]
+			}
+			st.Fail(rt, sig, "%s\nlatency A→B %d B→A %d steps, loss %d%% of %s for %d steps, protected request #%d (A) #%d (B) on %s<->%s\ncase: %s\nops: %s\nfinal: %s",
+				msg, lat[0], lat[1], lossPct, lossClass, nSteps, protK[0], protK[1], sockName(prot[0]), sockName(prot[1]), c, strings.Join(o, "; "), d.snapshotSel())
 		}
 	})
 }
